@@ -46,7 +46,8 @@ MDial(s, e) ==
   LET k == e.cid + 1 IN
   IF s.refuse THEN MFail(s, "C16.inconsistent_settings_not_refused_before_connecting")
   ELSE IF k # Len(s.conns) + 1 THEN MFail(s, "harness.cid_out_of_order")
-  ELSE IF k > s.firstCid /\ s.stop THEN MFail(s, "C15.connection_attempt_after_close")
+  \* (a close() racing with an attempt at the very same instant cannot be told apart from one just after it)
+  ELSE IF k > s.firstCid /\ s.stop /\ ~(s.appClose /\ s.appCloseT = e.t) THEN MFail(s, "C15.connection_attempt_after_close")
   ELSE IF k > s.firstCid /\ s.R = 0 THEN MFail(s, "C15.reconnected_without_reconnect_interval")
   ELSE IF k > s.firstCid /\ s.nclose > 0 THEN MFail(s, "C15.on_close_fired_before_reconnecting")
   ELSE IF k > s.firstCid /\ s.lossT >= 0 /\ e.t # s.lossT + s.R THEN MFail(s, "C15.retry_not_one_interval_after_the_loss")
@@ -122,6 +123,8 @@ MError(s, e) ==
   ELSE IF e.cls \in InternalErrors /\ ~(s.cbErrorsExpected > 0) THEN MFail(s, "C14.internal_error_reported_to_on_error")
   ELSE IF s.cbErrorsExpected > 0 /\ e.cls = "RuntimeError"
        THEN MRes([s EXCEPT !.cbErrorsExpected = @ - 1, !.lastCb = "error"], TRUE, "")   \* a user callback's own exception: reported, the run goes on
+  ELSE IF s.appClose /\ (k < s.firstCid \/ s.conns[k].ending \in {"none", "close_frame"}) /\ ~(s.cbErrorsExpected > 0)
+       THEN MFail(s, "C14.error_reported_for_a_run_ended_by_the_applications_close")
   ELSE IF k >= 1 /\ IsPingTimeout(e) /\ s.T > 0 /\ s.conns[k].up THEN
        LET c == s.conns[k]
            responsive == \A i \in 1..Len(c.pings) : c.pings[i].lat >= 0 /\ c.pings[i].lat <= s.T
@@ -141,10 +144,10 @@ MClose(s, e) ==
       none == e.none
   IN
   IF s.nclose > 0 THEN MFail(s, "C14.on_close_called_twice")
-  ELSE IF byFrame /\ ~s.conns[k].appCloseFirst /\ cf.hasBody /\ ~exact THEN MFail(s, "C14.on_close_arguments_not_those_of_the_close_frame")
+  ELSE IF byFrame /\ ~s.appClose /\ cf.hasBody /\ ~exact THEN MFail(s, "C14.on_close_arguments_not_those_of_the_close_frame")
   ELSE IF byFrame /\ ~cf.hasBody /\ ~none THEN MFail(s, "C14.on_close_arguments_for_empty_close_frame")
-  ELSE IF byFrame /\ s.conns[k].appCloseFirst /\ ~(none \/ exact) THEN MFail(s, "C14.on_close_arguments")
-  ELSE IF ~byFrame /\ ~none THEN MFail(s, "C14.on_close_arguments_without_close_frame")
+  ELSE IF byFrame /\ s.appClose /\ ~(none \/ exact) THEN MFail(s, "C14.on_close_arguments")
+  ELSE IF ~byFrame /\ ~none /\ ~s.appClose THEN MFail(s, "C14.on_close_arguments_without_close_frame")   \* (after the application's close() the peer's answering close frame may be passed on)
   ELSE MRes([s EXCEPT !.nclose = 1, !.lastCb = "close"], TRUE, "")
 
 (* ---- keepalive ---------------------------------------------------------- *)
@@ -192,7 +195,7 @@ MRunRet(s, e) ==
   IF s.refuse THEN MFail(s, "C16.inconsistent_settings_accepted")
   ELSE IF HasCb(s, "close") /\ s.nclose # 1 /\ ~s.ext THEN MFail(s, "C14.on_close_not_called")
   ELSE IF faults # {} THEN MFail(s, CHOOSE f \in faults : TRUE)
-  ELSE IF HasCb(s, "error") /\ e.value # (s.errors > 0) /\ ~(s.R > 0 /\ s.lossSeen) THEN
+  ELSE IF HasCb(s, "error") /\ e.value # (s.errors > 0) /\ s.R = 0 /\ ~s.ext THEN
        MFail(s, IF e.value THEN "C14.returned_True_without_reported_error" ELSE "C14.returned_False_although_error_reported")
   ELSE IF s.R > 0 /\ ~s.stop /\ ~s.appClose /\ s.lossSeen THEN MFail(s, "C15.gave_up_reconnecting")
   ELSE MRes([s EXCEPT !.ret = "returned", !.retVal = e.value, !.active = FALSE], TRUE, "")
